@@ -184,6 +184,11 @@ def check_first_error_wins(c: Check, rule: str, fd: FuncDef, is_elem_call, iter_
         if labs:
             n_with_calls += 1
         key = '%s/path/%s' % (fd.key.split(':')[-1], '-'.join(labs) or 'empty')
+        # every element that is iterated is checked (no element is skipped)
+        iters = len([e for e in p.trace if e.kind == 'loop-iter' and e.func is fd])
+        c.expect(iters == len(labs), rule, fd.key.split(':')[-1] + '/every-element-checked',
+                 '%d elements are iterated but %d are checked on a path: some element is skipped without being '
+                 'checked' % (iters, len(labs)), fd.loc())
         if 'err' in labs:
             halted = labs.index('err') == len(labs) - 1
             v = p.val if p.kind == 'return' else None
